@@ -22,8 +22,9 @@ func init() {
 			ruleV6(c)
 			ruleV7(c)
 			ruleV8(c)
+			ruleV9(c)
 		},
-		explanation: "Round-trip equality is a statement about values and is not decided.  Decided are the tables and shapes it needs: for each NRI/OCI conversion pair the From and To field maps are mutually inverse relations with agreeing field names, cover every field of the NRI message (frozen exceptions with reasons), and pass optional scalars as pointers through the optional constructors / Get() so that unset and zero stay distinct; every call site of an optional constructor passes a type the constructor's own type switch accepts (anything else silently becomes unset); LinuxResources.Copy stores no pointer, map or slice taken from the receiver into the result and copies every listed field; the event-mask parser and printer tables are inverse, total on the 13 events and disjoint from the parser's keywords; the env separator agrees across its four users. In conversion loops the append is made on every iteration.",
+		explanation: "Round-trip equality is a statement about values and is not decided.  Decided are the tables and shapes it needs: for each NRI/OCI conversion pair the From and To field maps are mutually inverse relations with agreeing field names, cover every field of the NRI message (frozen exceptions with reasons), and pass optional scalars as pointers through the optional constructors / Get() so that unset and zero stay distinct; every call site of an optional constructor passes a type the constructor's own type switch accepts (anything else silently becomes unset); LinuxResources.Copy stores no pointer, map or slice taken from the receiver into the result and copies every listed field; the event-mask parser and printer tables are inverse, total on the 13 events and disjoint from the parser's keywords; the env separator agrees across its four users. In conversion loops the append is made on every iteration. Whether a field is carried over depends on that field (or its part) only.",
 		notDecided: []string{
 			"integer conversions at the edges (uint64 to int64)",
 			"the printer/parser loops themselves beyond the tables",
@@ -1255,4 +1256,56 @@ func isBuiltinCall2(in ssa.Instruction, name string) (*ssa.Call, bool) {
 		return nil, false
 	}
 	return isBuiltinCall(v, name)
+}
+
+// ---------------------------------------------------------------- V9 fields are converted independently
+
+// ruleV9: whether a field is carried over depends on that field (or the part it belongs to) only.
+func ruleV9(c *Ctx) {
+	m := c.M
+	c.rule("V9", "fields are converted independently: in the conversion and copy functions of pkg/api the store that carries a field over is controlled only by presence tests of that field or of the part it belongs to — never by another field's presence (an early return on one optional part must not skip the parts after it)", 20)
+	n := 0
+	for _, f := range m.funcsInPkg(pkgAPI) {
+		if f.Synthetic != "" || f.Parent() != nil {
+			continue
+		}
+		name := f.Name()
+		if !(name == "ToOCI" || name == "Copy" || strings.HasPrefix(name, "FromOCI") || strings.HasPrefix(name, "ToOCI")) {
+			continue
+		}
+		mf := newMergeFn(m, f)
+		seen := map[string]bool{}
+		for _, fl := range m.fieldFlows(f) {
+			prm, ok := fl.Src.Root.(*ssa.Parameter)
+			if !ok || len(fl.Src.Path) == 0 {
+				continue
+			}
+			q := dropIdx(fl.Src.PathString())
+			key := funcKey(f) + "/" + dropIdx(fl.Path)
+			if seen[key] {
+				continue
+			}
+			seen[key] = true
+			bad := ""
+			for _, cd := range controls(fl.At.Block()) {
+				// leaving an earlier loop is not a condition: the exit is always taken eventually
+				if cd.If != nil && canReach(cd.If.Block(), cd.If.Block()) && !canReach(fl.At.Block(), cd.If.Block()) {
+					continue
+				}
+				for _, s := range mf.condSubjects(cd) {
+					if s.Root != ssa.Value(prm) || len(s.Path) == 0 {
+						continue
+					}
+					sp := dropIdx(s.PathString())
+					// related: one is a prefix of the other (the field itself, or the part it lives in)
+					if strings.HasPrefix(q+".", sp+".") || strings.HasPrefix(sp+".", q+".") {
+						continue
+					}
+					bad = fmt.Sprintf("the copy of %s is controlled by a test of %s: when that other part is absent (or present) this field is silently not converted", q, sp)
+				}
+			}
+			n++
+			c.ok("V9", key, fl.At.Pos(), bad == "", fmt.Sprintf("%s carries %s over whatever the other fields are", funcKey(f), dropIdx(fl.Path)), bad)
+		}
+	}
 }
